@@ -66,6 +66,37 @@ Theorem C10_expand_mat_keeps_caches : forall vr c s i src,
 Proof. exact expand_mat_keeps_caches. Qed.
 Print Assumptions C10_expand_mat_keeps_caches.
 
+(* several property packages, indexers re-based between them (reset_chemicals): every package's caches stay coherent
+   with ITS table, so a read after any such history depends only on the indexer's CURRENT package, its data and the key;
+   in particular not on what was cached, by this or any other indexer, under the package it came from *)
+Theorem C10_multi_read_history_independent : forall cs ixs hist g k,
+  let ms := mafter cs ixs hist in
+  snd (mstep fixed cs ms (MOp (OGet g k))) =
+  match nth_error (mwhere ms) g with
+  | Some (pk, li) =>
+      let c := nth pk cs dflt_cfg in
+      match nth_error (sixs (nth pk (mpk ms) dflt_st)) li with
+      | Some (IC d) => obs_of_read (read_chem (tb c) d k)
+      | Some (IM phs rows) => obs_of_read (read_mat fixed (tb c) (nchem c) phs rows k)
+      | None => BErr EOther
+      end
+  | None => BErr EOther
+  end.
+Proof. exact mread_after_history. Qed.
+Print Assumptions C10_multi_read_history_independent.
+
+Theorem C10_multi_caches_coherent : forall cs ixs hist, mcoh_all cs (mafter cs ixs hist).
+Proof. intros cs ixs hist. apply mrun_coh. apply minit_coh. Qed.
+Print Assumptions C10_multi_caches_coherent.
+
+(* re-basing an indexer changes no cache of any package: it continues with the cache registered for
+   (its phases, the new chemicals) *)
+Theorem C10_reset_keeps_caches : forall vr cs ms g pk q,
+  let ms' := fst (mstep vr cs ms (MReset g pk)) in
+  scc (nth q (mpk ms') dflt_st) = scc (nth q (mpk ms) dflt_st) /\ smc (nth q (mpk ms') dflt_st) = smc (nth q (mpk ms) dflt_st).
+Proof. exact reset_keeps_caches. Qed.
+Print Assumptions C10_reset_keeps_caches.
+
 (* lookup_total + get_refines, single-phase data: for every valid key (spec_chem is defined: an
    ID/alias/CAS, a group, a tuple or list of them, the ellipsis) and after every history the read
    does not raise and returns exactly the listed entries of the dense data, group entries summed *)
@@ -216,7 +247,7 @@ Definition ex_chems := [mkchem "A_" "A_" [] 16; mkchem "B_" "10-00-1" ["bee"] 32
 Definition ex_cfg : cfg :=
   match compile ex_chems with
   | Ok c0 => fst (cbuild c0 [CAlias "A_" "ay"; CGroup "G" ["B_"; "C_"] (Some [1; 3]) false])
-  | Err _ => mkcfg [] [] [] [] 0
+  | Err _ => mkcfg [] [] [] [] 0 []
   end.
 Definition ex_ixs := [IC [1; 2; 4]; IM ["g"; "l"] [[1; 0; 4]; [1 # 2; 2; 0]]].
 
@@ -288,6 +319,19 @@ Example C10_joint_expansion_nonvacuous :
   [BPh ["L"; "g"; "l"; "s"] [[0; 0; 3]; [1; 2; 3]; [4; 5; 6]; [0; 2; 0]];
    BWr None [[0; 0; 3]; [1; 2; 3]; [4; 5; 6]; [7; 2; 0]]; BVal (VNum 0); BVal (VNum 12);
    BPh ["L"; "S"; "g"; "l"; "s"] [[0; 0; 0]; [1; 1; 1]; [0; 0; 0]; [2; 2; 2]; [0; 0; 0]]].
+Proof. vm_compute. reflexivity. Qed.
+
+(* two packages ordering the chemicals differently and defining the group G differently; indexer 0 is re-based after both
+   have filled the cache of the first package: each then reads through its own package's table *)
+Definition ex_cfg2 : cfg :=
+  fst (build_pkg ([mkchem "C_" "C_" [] 8; mkchem "A_" "A_" [] 16; mkchem "B_" "10-00-1" [] 32], [CGroup "G" ["A_"; "C_"] None false])).
+Example C10_rebase_nonvacuous :
+  snd (mrun fixed [ex_cfg; ex_cfg2] (minit 2 [IM ["g"; "l"] [[1; 2; 3]; [4; 5; 6]]; IM ["g"; "l"] [[10; 20; 30]; [40; 50; 60]]])
+   [MOp (OGet 0 (KTup [KStr "l"; KStr "A_"])); MOp (OGet 1 (KTup [KStr "l"; KStr "G"])); MReset 0 1;
+    MOp (OGet 0 (KTup [KStr "l"; KStr "A_"])); MOp (OGet 1 (KTup [KStr "l"; KStr "A_"])); MOp (OGet 0 (KTup [KStr "l"; KStr "G"]));
+    MOp (OGet 1 (KTup [KStr "l"; KStr "G"])); MOp (OSet 0 (KTup [KStr "l"; KStr "C_"]) (DNum 9)); MOp (OGet 1 (KStr "l"))]) =
+  [BVal (VNum 4); BVal (VNum 110); BWr None [[3; 1; 2]; [6; 4; 5]]; BVal (VNum 4); BVal (VNum 40); BVal (VNum 10);
+   BVal (VNum 110); BWr None [[3; 1; 2]; [9; 4; 5]]; BVal (VVec [40; 50; 60])].
 Proof. vm_compute. reflexivity. Qed.
 
 (* the code as first found in /repo violates the same statements (one witness per defect):
